@@ -241,3 +241,9 @@ package arvados
 //@   ensures released
 //@   loop 1: invariant perr == nil && released
 //@   calls atomic.AddInt64#1: requires perr == nil && istype(ref.fn.segments[ref.idx], storedSegment) && unbox(ref.fn.segments[ref.idx], storedSegment).locator == loc && unbox(ref.fn.segments[ref.idx], storedSegment).size == blocksize && unbox(ref.fn.segments[ref.idx], storedSegment).offset == offsets[idx] && unbox(ref.fn.segments[ref.idx], storedSegment).length == len(data)
+
+// SignManifest's per-token function: a block locator token is re-signed after
+// its old permission hint was stripped; every other token is returned unchanged.
+//@ func SignManifest$1 property C07
+//@   calls SignLocator#1: requires matches(tok, `^[0-9a-f]{32}.*`) && $1 == apiToken && $2 == expiry && $3 == ttl && $4 == permissionSecret
+//@   ensures !matches(tok, `^[0-9a-f]{32}.*`) ==> result == tok
